@@ -474,6 +474,10 @@ class Session:
         logging.info("")
         logging.info(f"Record Type: {record.record_type}")
         logging.info(f"Binary: {record.raw.hex()}")
+        if len(record.binary) == 0 and record.record_type in (0x15, 0x16):
+            # handshake and alert records are never empty (RFC 5246 6.2.1, RFC 8446 5.1): a damaged record, nothing to interpret
+            logging.warning(f"Empty record of type {record.record_type} ignored")
+            return
         match record.record_type:
             # Handshake Record
             case 0x16:
